@@ -10625,3 +10625,70 @@ let holds_C11 orig restored =
 
 let holds_C14 drained_L lines_L lines_inf =
   lines_eqb (app drained_L lines_L) lines_inf
+
+type left_loc =
+| InView of nat
+| InScrollback
+| Discarded
+| Stays
+
+(** val wrap_left : term -> left_loc **)
+
+let wrap_left t =
+  let r = t.cur_row in
+  if Nat.eqb r t.bot
+  then if Nat.ltb t.top r
+       then InView (sub r (S O))
+       else if Nat.eqb t.top O then InScrollback else Discarded
+  else if Nat.ltb r (sub t.rows (S O)) then InView r else Stays
+
+(** val line_at : term -> left_loc -> line option **)
+
+let line_at t' = function
+| InView i -> nth_error (tview t') i
+| InScrollback -> last_opt (tsb t')
+| _ -> None
+
+(** val wrap_due : term -> func -> bool **)
+
+let wrap_due t = function
+| Print _ -> (&&) t.awm t.pend
+| _ -> false
+
+(** val kf1_C04 : vt -> func -> bool **)
+
+let kf1_C04 pre f =
+  let t = pre.vterm in
+  (&&)
+    ((&&) ((&&) (wrap_due t f) (Nat.eqb t.cur_row t.bot))
+      (Nat.ltb t.bot (sub t.rows (S O))))
+    ((||) (Nat.eqb t.top O) (Nat.ltb t.top t.bot))
+
+(** val holds_C04_wrapmark : vt -> func -> vt -> bool **)
+
+let holds_C04_wrapmark pre f post =
+  let t = pre.vterm in
+  let t' = post.vterm in
+  if (&&) (wrap_due t f) (negb (kf1_C04 pre f))
+  then (match wrap_left t with
+        | Discarded -> true
+        | Stays ->
+          (&&) (Nat.eqb t'.cur_row t.cur_row)
+            (match nth_error (tview t) t.cur_row with
+             | Some l ->
+               (match nth_error (tview t') t.cur_row with
+                | Some l' -> eqb l.wrapped l'.wrapped
+                | None -> false)
+             | None -> false)
+        | x -> (match line_at t' x with
+                | Some l -> l.wrapped
+                | None -> false))
+  else true
+
+(** val wrapmark_lost : vt -> func -> vt -> bool **)
+
+let wrapmark_lost pre f post =
+  (&&) (kf1_C04 pre f)
+    (match line_at post.vterm (wrap_left pre.vterm) with
+     | Some l -> negb l.wrapped
+     | None -> false)
